@@ -1587,6 +1587,16 @@ class Pipeline:
                 pipeline_str += f"    Possible input arguments: {input_args}\n"
         return pipeline_str
 
+    def __setstate__(self, state: dict) -> None:
+        """Restore the pipeline and register it with its functions again.
+
+        The functions do not pickle their (weak) references to the pipelines they are in;
+        without them a change to a function would not reset this pipeline's caches.
+        """
+        self.__dict__.update(state)
+        for f in self.functions:
+            f._pipelines.add(self)
+
     def copy(self, **update: Any) -> Pipeline:
         """Return a copy of the pipeline.
 
